@@ -755,7 +755,9 @@ def src_calls_by_line(text):
                 while j0 > 0 and body[j0 - 1].isalnum():
                     j0 -= 1
                 run_ = body[j0:fm.start()]
-                if not re.search(r"(PRINT|THEN|ELSE|TO|STEP|AND|OR|NOT|ON|IF|LET|GOTO|GOSUB|SOUND|POKE|CLS|WIDTH|LOCATE|ATTR|"
+                if run_[0].isdigit():
+                    pass            # a number literal juxtaposed with the function (PRINT 1E+2INT(Y))
+                elif not re.search(r"(PRINT|THEN|ELSE|TO|STEP|AND|OR|NOT|ON|IF|LET|GOTO|GOSUB|SOUND|POKE|CLS|WIDTH|LOCATE|ATTR|"
                                  r"PALETTE|HSCREEN|HCLS|HCOLOR|HDRAW|PLAY|HBUFF|CLEAR)$", run_) or (run_ + name).endswith("PRINT"):
                     continue
             if name == "INKEY$":
@@ -870,6 +872,8 @@ def c05_classify(case, impl, why):
         n = int(m.group(1))
         src_line = next((l for l in re.split(r"[\r\n]+", text) if re.match(rf"\s*{n}\b", l)), "")
         body = src_blank(src_line)
+        if re.search(r"(H?CLS|HSCREEN) *(NOT|-|\+)", body):
+            return "signed-operand-replaced-by-default"
         if re.search(r"\bELSE\b", body) and re.search(r"\bIF\b", body):
             return "if-else-condition-drops-hoisted-call"
         if re.search(r"(READ|INPUT)[^:]*\(", body):
